@@ -149,6 +149,9 @@ func (fr *Frame) applyContract(st *State, call ssa.CallInstruction, fn *ssa.Func
 	env := vc.callEnv(fn, sig, ct, args, st, old, "ensures of "+ct.Key)
 	vc.bindResults(env, sig, res)
 	for _, cl := range ct.Ensures {
+		if cl.UsesCallres {
+			continue // speaks about the callee's internal calls: nothing the caller can use
+		}
 		vc.sc.Assume(st.reach, env.boolTerm(cl.Expr))
 	}
 	vc.reportEnvErrors(env)
@@ -195,7 +198,7 @@ func (fr *Frame) applyIfaceContract(st *State, call ssa.CallInstruction, m *type
 	}
 	if ct.Modifies == nil {
 		clk := vc.bumpClock(st)
-		vc.havocOS(st, recv)
+		vc.havocOS(st, recv, call.Common().Value.Type())
 		fr.havocArgs(st, call.Common().Args, args, false, clk)
 	} else {
 		fr.applyModifies(st, old, call, nil, sig, ct, all)
@@ -277,7 +280,7 @@ func (fr *Frame) havocLoc(st *State, env *Env, loc *Expr, pos token.Pos) {
 	}
 	if loc.Op == "call" && loc.Name == "os" && len(loc.Args) == 1 {
 		v := env.eval(loc.Args[0])
-		vc.havocOS(st, v.t)
+		vc.havocOS(st, v.t, v.ct.T)
 		return
 	}
 	if loc.Op == "call" && loc.Name == "elems" && len(loc.Args) == 1 {
@@ -288,13 +291,27 @@ func (fr *Frame) havocLoc(st *State, env *Env, loc *Expr, pos token.Pos) {
 				vc.locKeys(sl.Elem(), keys)
 				for _, k := range sortedKeys(keys) {
 					kt := keys[k]
-					base := sx("s-base", v.t)
+					base := vc.sptr(v.t)
 					fr.frameCheckRoot(st, base, "elems("+loc.Args[0].String()+")", pos)
 					vc.havoc(st, k, "(Array Ref "+vc.sortOf(kt)+")", func(a Term) Term { return Eq(sx("root", a), sx("root", base)) })
 				}
 				return
 			}
 		}
+	}
+	if loc.Op == "call" && loc.Name == "target" && len(loc.Args) == 1 {
+		// the object a boxed pointer (decode target passed as `any`) points to, deeply
+		v := env.eval(loc.Args[0])
+		if bi, ok := vc.boxes[v.t]; ok {
+			if pt, ok := typesPointerElem(bi.t); ok {
+				fr.frameCheckRoot(st, bi.inner, "target("+loc.Args[0].String()+")", pos)
+				vc.havocPointee(st, bi.inner, pt, true, st.clk)
+				return
+			}
+		}
+		vc.havocOS(st, v.t, nil)
+		vc.Abstracted["decode target of statically unknown type (abstract state havoced)"] = true
+		return
 	}
 	if loc.Op == "call" && loc.Name == "deep" && len(loc.Args) == 1 {
 		v := env.eval(loc.Args[0])
